@@ -117,7 +117,7 @@ func cmdCheck(args []string) {
 		scan = append(scan, cf.Scan...)
 		for _, key := range cf.Order {
 			fc := cf.Funcs[key]
-			if !hasProp(fc.Props, *prop) || strings.HasPrefix(key, "iface ") {
+			if !hasProp(fc.Props, *prop) || strings.HasPrefix(key, "iface ") || strings.HasPrefix(key, "fv ") {
 				continue
 			}
 			if fc.Lemma {
